@@ -13,6 +13,12 @@
 (*   ok    ghost: the closed part of the buffer is a well-formed sequence   *)
 (*         of labels whose length octets equal their content lengths        *)
 (*   labs  ghost: content lengths of the closed labels, leftmost first      *)
+(*   fresh the octet reserved for the open label's length currently holds   *)
+(*         cur (it holds 0 after the label was opened; a failed            *)
+(*         append_label has already written it before putting `head`       *)
+(*         back).  Not observable and irrelevant to the ideal design; it   *)
+(*         decides whether D_append_name_open_label leaves a malformed     *)
+(*         buffer or, by accident, a well-formed one.                      *)
 (* Label *contents* are irrelevant to the limits and are not modelled.      *)
 (*                                                                          *)
 (* What the property demands (properties.jsonl C03, RFC 1035 2.3.4/3.1):    *)
@@ -54,7 +60,9 @@ MaxLabel == 63
 MaxRel   == 254       \* RelativeName / builder content
 MaxAbs   == 255       \* Name
 
-InitSt == [len |-> 0, open |-> FALSE, cur |-> 0, ok |-> TRUE, labs |-> <<>>]
+InitSt == [len |-> 0, open |-> FALSE, cur |-> 0, ok |-> TRUE, labs |-> <<>>, fresh |-> FALSE]
+\* equality of builder states up to the unobservable `fresh`
+Same(a, b) == [a EXCEPT !.fresh = FALSE] = [b EXCEPT !.fresh = FALSE]
 
 \* wire length of a sequence of label content lengths (no root octet)
 WireOfLens(ls) == SumSeq([i \in 1..Len(ls) |-> 1 + ls[i]])
@@ -73,7 +81,7 @@ EndLabelF(s) ==
   IF s.open
   THEN [len |-> s.len, open |-> FALSE, cur |-> 0,
         ok |-> s.ok /\ s.cur >= 1 /\ s.cur <= MaxLabel,
-        labs |-> Append(s.labs, s.cur)]
+        labs |-> Append(s.labs, s.cur), fresh |-> FALSE]
   ELSE s
 
 \* push(octet)
@@ -81,7 +89,7 @@ PushF(s, D) ==
   IF s.open
   THEN IF s.cur + 1 > MaxLabel THEN R("err", s)
        ELSE IF s.len + 1 > MaxRel THEN R("err", s)
-       ELSE R("ok", [s EXCEPT !.len = @ + 1, !.cur = @ + 1])
+       ELSE R("ok", [s EXCEPT !.len = @ + 1, !.cur = @ + 1, !.fresh = FALSE])
   ELSE \* a new label costs its length octet as well
        IF (IF "D_push_253" \in D THEN s.len + 1 > MaxRel ELSE s.len + 2 > MaxRel)
        THEN R("err", s)
@@ -99,7 +107,7 @@ AppendSliceF(s, n, D) ==
                        ELSE s.len + n > MaxRel
        IN IF labelErr # "ok" THEN R(labelErr, s)
           ELSE IF totalErr THEN R("err", s)
-          ELSE R("ok", [s EXCEPT !.len = @ + n, !.cur = @ + n])
+          ELSE R("ok", [s EXCEPT !.len = @ + n, !.cur = @ + n, !.fresh = FALSE])
   ELSE IF n > MaxLabel THEN R("err", s)
        ELSE IF (IF "D_slice_new_label_plus1" \in D THEN s.len + n > MaxRel
                 ELSE s.len + 1 + n > MaxRel)
@@ -112,20 +120,25 @@ EndLabelCallF(s) == R("ok", EndLabelF(s))
 \* append_label(label of n octets): end_label; append_slice; on error put
 \* `head` back (the abstract state is then the one before the call);
 \* end_label.  An empty label appends nothing (append_slice's documented
-\* behaviour) but still ends the open label.
+\* behaviour) but still ends the open label.  After an error the length
+\* octet of a label that was open has been written.
 AppendLabelF(s, n, D) ==
   LET r == AppendSliceF(EndLabelF(s), n, D)
-  IN IF r.res # "ok" THEN R(r.res, s) ELSE R("ok", EndLabelF(r.st))
+  IN IF r.res # "ok" THEN R(r.res, [s EXCEPT !.fresh = s.open \/ @])
+     ELSE R("ok", EndLabelF(r.st))
 
 \* append_name(relative name with label lengths rel)
 AppendNameF(s, rel, D) ==
   LET broken == "D_append_name_open_label" \in D /\ s.open
       s1 == IF broken
-            THEN \* head taken, end_label() did nothing: octets `00 content..`
-                 [len |-> s.len, open |-> FALSE, cur |-> 0, ok |-> FALSE,
-                  labs |-> Append(s.labs, s.cur)]
+            THEN \* head taken, end_label() did nothing: the length octet keeps
+                 \* what it held (0, i.e. `00 content..`, unless a failed
+                 \* append_label happened to leave the right value there)
+                 [len |-> s.len, open |-> FALSE, cur |-> 0, ok |-> s.ok /\ s.fresh,
+                  labs |-> Append(s.labs, s.cur), fresh |-> FALSE]
             ELSE EndLabelF(s)
-  IN IF s1.len + WireOfLens(rel) > MaxRel THEN R("err", s)
+  IN IF s1.len + WireOfLens(rel) > MaxRel
+     THEN R("err", IF broken THEN s ELSE [s EXCEPT !.fresh = s.open \/ @])
      ELSE R("ok", [s1 EXCEPT !.len = @ + WireOfLens(rel), !.labs = @ \o rel])
 
 \* append_dec_u8_label(value with k decimal digits): end_label; k pushes;
@@ -254,7 +267,7 @@ NoPanic == last.res # "panic"
 
 \* an error leaves the builder as it was (atomic calls) and never grows it
 ErrLeavesUnchanged ==
-  [][(last'.res # "ok" /\ last'.op \in AtomicOps) => st' = st]_vars
+  [][(last'.res # "ok" /\ last'.op \in AtomicOps) => Same(st', st)]_vars
 ErrLeavesUsable ==
   [][(last'.res # "ok" /\ LimitsOf(st)) => (LimitsOf(st') /\ st'.len >= st.len)]_vars
 \* calls only ever append
